@@ -78,6 +78,24 @@ def generate(rng):
     if scn['type_ahead']:
         scn['cmds'] = [{'n': rng.choice([0, 5, 80]), 's': rng.randrange(100)}, {'n': rng.choice([5, 700, 1200, 1900]), 's': rng.randrange(100)}]
         scn['shell_latency'] = rng.choice([1, 50])
+        if rng.random() < 0.5:
+            # the first prompt lands near a maxread (2000) boundary of the queued output and at least one more full read
+            # follows it: full-size reads are where a search window / look-back shortcut in prompt() would lose it
+            s1, n2, s2 = rng.randrange(100), rng.choice([2300, 4300, 6100]), rng.randrange(100)
+            n1 = rng.randint(1650, 2050)
+            if rng.random() < 0.6:
+                # aim: the stream since the two lines were typed is [echo of both lines] answer-1 PROMPT answer-2 PROMPT;
+                # put the first PROMPT so that it starts 1..10 characters before a multiple of 2000
+                k = rng.choice([1, 1, 2])
+                target = 2000 * k - rng.randint(1, 10)
+                full = payload(2000 * k, s1)
+                ln = 2
+                for n1 in range(1, 2000 * k):
+                    ln += 2 if full[n1 - 1] == '\n' else 1
+                    echo = (len('echo %d %d' % (n1, s1)) + len('echo %d %d' % (n2, s2)) + 4) if scn['session_echo'] else 0
+                    if echo + ln >= target:
+                        break
+            scn['cmds'] = [{'n': n1, 's': s1}, {'n': n2, 's': s2}]
     scn['hup_write'] = rng.choice(['ok', 'ok', 'ok', 'eio'])
     scn['vt_cap_s'] = 2000
     scn['step_cap'] = 300000
@@ -252,10 +270,19 @@ def run(scn):
             nset = typed.count(b"PS1='[PEXPECT]") + typed.count(b"set prompt='[PEXPECT]")
             d.update(script=[s['k'] for s in scn.get('script', [])], opts=scn.get('opts'), flavour=flavour,
                      session_echo=scn.get('session_echo', True),
-                     prompt_setting_commands_received=nset, server_state=tr['state'])
+                     prompt_setting_commands_received=nset, server_state=tr['state'],
+                     set_unique_prompt_returned=(sup_results[-1] if sup_results else None))
             out.append(Violation(clause, msg, d.pop('site', None), d))
         s = T.SimPxssh(timeout=scn.get('timeout', 30), encoding=enc)
         r.child = s
+        sup_results = []
+        sup_orig = s.set_unique_prompt
+
+        def sup_recorded(*a, **kw):
+            res_ = sup_orig(*a, **kw)
+            sup_results.append(bool(res_))
+            return res_
+        s.set_unique_prompt = sup_recorded
         w.begin_op(0)
         w.note('op', (0, 'login'))
         opts = dict(scn.get('opts', {}))
